@@ -35,15 +35,22 @@ def make_pack(case):
         exp = R.encode_int(v, n, None, big)
         ctx.check("pack == two's complement in the requested byte order", R.And(len(o) == n, *[o[i] == exp[i] for i in range(min(n, len(o)))]))
         # inverse
-        back_s = utils.unpack(o, bits, endian, True)
-        back_u = utils.unpack(o, bits, endian, False)
+        try:
+            back_s = utils.unpack(o, bits, endian, True)
+            back_u = utils.unpack(o, bits, endian, False)
+        except Exception as e:  # noqa: BLE001
+            ctx.check("unpack accepts what pack produced", False, H.classify(e))
+            return
         ctx.check("unpack(pack(v), sign=True) == v for v in the signed range", R.Implies(v < (1 << (bits - 1)), back_s == v))
         ctx.check("unpack(pack(v), sign=False) == v for v >= 0", R.Implies(v >= 0, back_u == v))
         if bits in (8, 16, 32, 64):
-            p = getattr(utils, f"p{bits}")(v, endian)
-            ctx.check(f"p{bits} == pack(.., {bits})", R.bytes_eq(p, o))
-            u = getattr(utils, f"u{bits}")(o, endian, False)
-            ctx.check(f"u{bits} == unpack(.., {bits})", u == back_u)
+            try:
+                p = getattr(utils, f"p{bits}")(v, endian)
+                ctx.check(f"p{bits} == pack(.., {bits})", R.bytes_eq(p, o))
+                u = getattr(utils, f"u{bits}")(o, endian, False)
+                ctx.check(f"u{bits} == unpack(.., {bits})", u == back_u)
+            except Exception as e:  # noqa: BLE001
+                ctx.check(f"p{bits}/u{bits} work", False, H.classify(e))
     return run
 
 
@@ -56,7 +63,11 @@ def make_unpack(case):
         from dissect.cstruct import utils
         data = ctx.bytes("b", n)
         for sign in (False, True):
-            got = utils.unpack(data, bits, endian, sign)
+            try:
+                got = utils.unpack(data, bits, endian, sign)
+            except Exception as e:  # noqa: BLE001
+                ctx.check("unpack of a byte string of the requested width works", False, H.classify(e))
+                return
             ctx.observe(f"value{sign}", got)
             ctx.check(f"unpack(sign={sign}) == reference decode", got == R.decode_int(data, 0, n, sign, big))
             back = utils.pack(got, bits, endian)
